@@ -101,7 +101,7 @@ def run_cases(chk, model, cases, suite, two=False):
             # ---- oracles, implementation only ----
             for side, got in ((c.a, got_a), (c.b, got_b)):
                 if got[0] == 0 and got[1]:
-                    d = ml.mk(side).match(path)
+                    d = {common.l2s(k): (common.l2s(v[0]) if v else None) for k, v in got[1][0]}
                     envnames = {k for k, _ in side[1]}
                     if not any(("*" in v) for _, v in side[1]) and not any(
                             n.startswith("s") and n[1:].isdigit() for n in envnames):
@@ -115,13 +115,17 @@ def run_cases(chk, model, cases, suite, two=False):
                 continue
             # by construction
             if kind == "filled-a":
-                d = ml.mk(c.a).match(path)
+                okm, d = ml.try_match(chk, c.a, path, "filled-path-not-matched")
+                chk.hist("oracle", "by-construction")
                 want = {"s%d" % (i + 1): f for i, f in enumerate(c.fills)}
-                if d is None or any((d.get(k) or "") != v for k, v in want.items()):
+                if not okm:
+                    pass
+                elif d is None or any((d.get(k) or "") != v for k, v in want.items()):
                     chk.fail("filled-path-not-matched", {"a": c.a, "path": path, "fills": c.fills},
                              {"got": d})
                 elif pb is not None:
-                    p2 = ml.mk(c.a).sub(ml.mk(c.b), path)
+                    p2 = ml.impl_sub(c.a, c.b, path)
+                    p2 = common.l2s(p2[1][0]) if p2[0] == 0 and p2[1] else p2
                     if p2 != pb:
                         chk.fail("sub-not-the-other-rendering",
                                  {"a": c.a, "b": c.b, "path": path, "fills": c.fills},
